@@ -377,7 +377,11 @@ def compare_greedy(m, S, y, preds, o, res, impl_status, impl_out):
             if [f[0] for f in fin] == idx and [float(Fraction(f[1], f[2])) for f in fin] == w:
                 matched, run = True, r
                 break
-        if not matched:
+        if not matched and any(r["status"] == "fuel" for r in runs):
+            # the run on one of the admissible argsort results exceeded CAP rounds: nothing to compare the answer with
+            res["desc"] = res["desc"] + ["inconclusive:model_long_run"]
+            res["nontrivial"] = False
+        elif not matched:
             if any(r["borderline"] for r in runs):
                 return dict(res, nontrivial=False, desc=res["desc"] + ["skipped:rounding_borderline"])
             r = [r for r in runs if r["status"] == "done"][0]
